@@ -19,6 +19,7 @@ import (
 	"sync"
 	"time"
 
+	corelog "tunnox-core/internal/core/log"
 	"tunnox-core/internal/packet"
 	"tunnox-core/internal/protocol/adapter"
 	"tunnox-core/internal/stream"
@@ -253,8 +254,8 @@ type planOp struct {
 // opsFor maps the abstract reads of one packet onto the real encoding of that packet (n bytes:
 // type, optional 4-byte length, body): a short read becomes a chunk boundary behind the bytes it
 // handed over, an empty read becomes an empty chunk at the current offset.
-func opsFor(p concPkt, rs []absRead, n int, mapping string) []planOp {
-	var ops []planOp
+func opsFor(p concPkt, rs []absRead, n int, mapping string) (ops []planOp, exact bool) {
+	exact = true // every abstract read corresponds to exactly one real Read call
 	wl := p.Len
 	if p.Z {
 		wl++
@@ -289,6 +290,7 @@ func opsFor(p concPkt, rs []absRead, n int, mapping string) []planOp {
 			}
 		case "L":
 			if n < 5 { // the writer put no length on the wire
+				exact = false
 				continue
 			}
 			if r.N == 0 {
@@ -301,7 +303,8 @@ func opsFor(p concPkt, rs []absRead, n int, mapping string) []planOp {
 				ops = append(ops, planOp{off, false})
 			}
 		case "B":
-			if n < 5 || realBody < 2 {
+			if n < 5 || (realBody < 2 && wl > 1) {
+				exact = false
 				continue
 			}
 			if r.N == 0 {
@@ -313,13 +316,18 @@ func opsFor(p concPkt, rs []absRead, n int, mapping string) []planOp {
 				if o := 5 + place(bgot); o > off {
 					off = o
 					ops = append(ops, planOp{off, false})
+				} else {
+					exact = false
 				}
 			} else {
 				off = n
 			}
 		}
 	}
-	return ops
+	if wl != realBody && (wl == 0 || realBody == 0) && n >= 5 { // e.g. a command packet: its JSON body is never empty
+		exact = false
+	}
+	return ops, exact
 }
 
 // planner turns per-packet ops into the list of chunk sizes of the whole stream.
@@ -399,13 +407,15 @@ func (c *chunkReader) Read(p []byte) (int, error) {
 
 // countingReader measures what a reader really pulled from a transport.
 type countingReader struct {
-	r io.Reader
-	n int
+	r     io.Reader
+	n     int
+	calls int
 }
 
 func (c *countingReader) Read(p []byte) (int, error) {
 	n, err := c.r.Read(p)
 	c.n += n
+	c.calls++
 	return n, err
 }
 
@@ -424,16 +434,21 @@ func (w *wsEnv) pair() (client, server io.ReadWriteCloser, err error) {
 	w.mu.Lock()
 	defer w.mu.Unlock()
 	if w.ad == nil && w.err == nil {
-		l, e := net.Listen("tcp", "127.0.0.1:0")
-		if e != nil {
-			w.err = e
-		} else {
-			w.addr = l.Addr().String()
-			l.Close()
-			w.ad = adapter.NewWebSocketAdapter(context.Background(), nil)
-			if e := w.ad.Listen(w.addr); e != nil {
+		for attempt := 0; attempt < 5; attempt++ { // the adapter cannot report an ephemeral port: pick a free one and retry on a clash
+			l, e := net.Listen("tcp", "127.0.0.1:0")
+			if e != nil {
 				w.err = e
+				continue
 			}
+			addr := l.Addr().String()
+			l.Close()
+			ad := adapter.NewWebSocketAdapter(context.Background(), nil)
+			if e := ad.Listen(addr); e != nil {
+				w.err = e
+				continue
+			}
+			w.ad, w.addr, w.err = ad, addr, nil
+			break
 		}
 	}
 	if w.err != nil {
@@ -469,6 +484,7 @@ func drive(env *fw.Env, b fw.Behaviour) *fw.Trace {
 	pp := perPacket(beh)
 	orig := make([]*packet.TransferPacket, len(beh.Pkts))
 	var pl planner
+	exact := true
 	for i, p := range beh.Pkts {
 		orig[i] = build(p, r)
 		before := wire.Len()
@@ -481,7 +497,9 @@ func drive(env *fw.Env, b fw.Behaviour) *fw.Trace {
 			wire.Truncate(before)
 			continue
 		}
-		pl.packet(opsFor(p, pp[i], wrote, beh.Map), wrote)
+		ops, ex := opsFor(p, pp[i], wrote, beh.Map)
+		exact = exact && ex
+		pl.packet(ops, wrote)
 	}
 	chunks := pl.finish()
 	data := wire.Bytes()
@@ -540,7 +558,11 @@ func drive(env *fw.Env, b fw.Behaviour) *fw.Trace {
 			consumed := cnt.n - before
 			if err != nil {
 				if before == len(data) && consumed == 0 { // nothing left: the reader's end-of-stream report
-					evs = append(evs, fw.Event{"ev": "Eof", "rest": len(data) - cnt.n, "msg": err.Error()})
+					ev := fw.Event{"ev": "Eof", "rest": len(data) - cnt.n, "msg": err.Error()}
+					if exact && beh.Transport == "reader" { // binding information (never judged): Read calls made vs. the model's reader
+						ev["calls"], ev["modelCalls"] = cnt.calls, len(beh.Reads)+1
+					}
+					evs = append(evs, ev)
 				} else {
 					evs = append(evs, fw.Event{"ev": "Err", "kind": "error", "msg": err.Error(), "consumed": consumed, "at": before})
 				}
@@ -666,7 +688,30 @@ func selfTest(env *fw.Env, acc []*fw.Trace) []*fw.Trace {
 	return out
 }
 
+// postDrive reports (informational, never a verdict) how many replays made exactly the Read calls the
+// reference reader of spec/Framing.tla makes on the same chunking (binding of model and code).
+func postDrive(env *fw.Env, traces []*fw.Trace) error {
+	total, same := 0, 0
+	for _, t := range traces {
+		if t.Status != fw.Realised || len(t.Events) == 0 {
+			continue
+		}
+		last := t.Events[len(t.Events)-1]
+		mc, ok := last["modelCalls"].(int)
+		if !ok {
+			continue
+		}
+		total++
+		if last["calls"] == mc {
+			same++
+		}
+	}
+	fmt.Printf("[bind] %d of %d comparable replays made exactly the Read calls of the model's reference reader\n", same, total)
+	return nil
+}
+
 func main() {
+	corelog.SetDefault(corelog.NewNopLogger())
 	fw.Main(&fw.Property{
 		ID:        "C01",
 		DesignRef: "DESIGN.md §5 C01",
@@ -715,6 +760,7 @@ func main() {
 		},
 		ExtraBeh:    extra,
 		Drive:       drive,
+		PostDrive:   postDrive,
 		Parallel:    12,
 		JudgeModule: "FramingTrace",
 		JudgeCfg:    "FramingTrace.cfg",
